@@ -178,6 +178,14 @@ def prepare(tier, scratch):
 
 
 META = {
+    # entry points are per-group functions, so vlib's reachability scan from main() finds nothing: the list is stated here
+    "functions_encoded": [
+        "mir-gen.c + mir-gen-x86_64.c: machine code emitted by MIR_gen for every enumerated function definition (target_machinize incl. the "
+        "parameter prologue, VA_START / VA_ARG expansion, alloca, target_make_prolog_epilog, register allocation and spilling, "
+        "target_translate) at the stated -O levels, lifted",
+        "mir-x86_64.c: va_arg_builtin (the C function, executed symbolically)",
+        "mir-x86_64.c: machine code emitted by _MIR_get_interp_shim (push_rbx, save_pat, prepare_pat, result moves, fxch, shim_end) per result list, lifted",
+    ],
     "bounds": {"arguments": "<= 20 per signature", "alloca": "constant 32 bytes / variable with the concrete size 24 (rounding path) / none",
                "live values": "0, 8 or 20 across one external call", "va": "named parameters: 0..9 i64 and 0..9 d (quick: the two axes + 9 mixed "
                "shapes, thorough: all 99) and 10 lists with by-value blocks / long doubles; tails i64,i64 / d,d / i64,d,ld / ld,i64,d (thorough + d,i64,i64)",
